@@ -11,7 +11,7 @@ import (
 	"vharness/vrt"
 )
 
-const chunkMax = 1 << 24
+const chunkMax = 1<<24 - 1
 
 // Check: the size guard kernel. For every output size > 0 and every string
 // length below 2^32: ok implies the string fits and the remainder is exact.
